@@ -80,7 +80,13 @@ def jobs_mu(tier):
         for p in progs.mu_programs(3, 2, max_total=4): J.append(Job('c-futex', 'mu', p, 3, 0))
         for p in progs.mu_programs(4, 1): J.append(Job('c-futex', 'mu', p, 2, 0))
         for p in progs.MU_RECYCLE: J.append(Job('c-futex', 'mu', p, 3, 0))
-    return both_sems(J)
+    J = both_sems(J)
+    # scripted long schedules at the real LONG_WAIT_THRESHOLD (adversary family): progress must survive the
+    # interplay of the long-wait bit with waiters that were woken early but run late
+    for cfg in ('c-futex', 'c-binsem'):
+        for p in ('wL:late', 'wL:alt', 'wR:alt', 'rL:fixed'):
+            J.append(Job(cfg, 'adversary', p, 1 if tier == 'quick' else (2 if p == 'wL:late' else 1), 0, ('--strict',)))
+    return J
 
 def run_C02(tier):
     t0 = time.time()
@@ -218,6 +224,8 @@ def run_C14(tier):
                 p = '%s%s:%s' % (v, b, st)
                 for cfg in ('c-futex', 'c-binsem'):
                     J.append(Job(cfg, 'adversary', p, 1, 0, ('--strict',)))
+    for cfg in ('c-futex', 'c-binsem'):
+        J.append(Job(cfg, 'adversary', 'wL:late', 1, 0, ('--strict',)))
     if not q:
         J.append(Job('c-futex', 'adversary', 'wL:alt', 2, 0, ('--strict',)))
     return generic('C14', tier, dedupe(J), 'DFS over schedules of a victim locker and 2-3 barging threads with LONG_WAIT_THRESHOLD reduced to 1..3 by the guarded hook; oracle at nsync\'s own acquisition events: once the victim\'s (T+1)-th sleep has begun no call that never slept acquires before the victim; at the real threshold 30: 15 adversarial strategies (fixed / alternating / fresh barger x victim and barger kinds) scripted as the default schedule and explored with all single deviations', sample_every=5)
